@@ -45,13 +45,17 @@ def make_cases(ctx, comps, klass="sa", plan=None):
     for (n, n_games, kmode) in plan:
         for gi in range(n_games):
             r = rng.random()
+            if klass == "sa" and gi == 0 and n >= 3:
+                r = 0.64                                  # the first game of every plan entry is a zero-rich one
             if klass == "sa":
                 if r < 0.35:
                     v, src, stream = games.sa_closure_game(rng, n, "int"), "closure-int", "exact"
                 elif r < 0.55:
                     v, src, stream = games.sa_closure_game(rng, n, "dyadic"), "closure-dyadic", "exact"
-                elif r < 0.65:
+                elif r < 0.60:
                     v, src, stream = games.unanimity_game(rng, n), "unanimity", "exact"
+                elif r < 0.68:
+                    v, src, stream = games.sa_zero_rich_game(rng, n), "zero-rich-int", "exact"
                 elif r < 0.8:
                     v, src, stream = games.sa_closure_game(rng, n, "float"), "closure-float", "float"
                 else:
@@ -272,7 +276,7 @@ def run_histories(ctx, comps, klass, plan, oracles, alt=False, fresh_check=False
         for _ in range(count):
             def draw():
                 if klass == "sa":
-                    g0 = games.sa_closure_game(rng, n, rng.choice(["int", "dyadic"]))
+                    g0 = games.sa_zero_rich_game(rng, n) if rng.random() < 0.15 else games.sa_closure_game(rng, n, rng.choice(["int", "dyadic"]))
                 else:
                     g0 = games.sam_game(rng, n, rng.choice(["int", "dyadic"]))
                 return magnitude_variant(rng, n, g0, "", allow_offset=(klass == "sa"))[0]
